@@ -26,7 +26,7 @@ static void expect_diag(const SU_vector& v, int d, const std::vector<ld>& diag, 
 
 void run_case(ByteSource& s, CaseInfo& ci) {
   int d = gen_dim(s);
-  unsigned kind = s.choose(7);
+  unsigned kind = s.choose(8);
   ci.nontrivial = true;
   switch (kind) {
     case 0: {  // Projector
@@ -90,6 +90,20 @@ void run_case(ByteSource& s, CaseInfo& ci) {
       ci.set_digest(fnv1a(ci.sample.data(), ci.sample.size()));
       SU_vector S = SU_vector::PosProjector(d, k) + SU_vector::NegProjector(d, d - k);
       expect_diag(S, d, std::vector<ld>(d, 1), "complement", 4 * TOL);
+      break;
+    }
+    case 7: {  // a returned object is an independent value: modifying it must not change what the factory returns later
+      unsigned f = s.choose(5); int idx = (int)s.choose(d); int gi = (int)(s.u8() % (unsigned)(d * d));
+      auto make = [&]() -> SU_vector { switch (f) { case 0: return SU_vector::Projector(d, idx); case 1: return SU_vector::Identity(d); case 2: return SU_vector::PosProjector(d, idx); case 3: return SU_vector::NegProjector(d, idx); default: return SU_vector::Generator(d, gi); } };
+      static const char* fn[] = {"Projector", "Identity", "PosProjector", "NegProjector", "Generator"};
+      ci.sample = fmt("%s(%d,..) requested, modified in place, requested again", fn[f], d); ci.label("mutate-then-request-again");
+      SU_vector first = make();
+      std::vector<double> ref = comps(first);
+      unsigned how = s.choose(4);
+      if (how == 0) first *= 3.0; else if (how == 1) first[(int)(s.u8() % (unsigned)(d * d))] = 7.5; else if (how == 2) first -= SU_vector::Projector(d, 0); else { SU_vector c = SU_vector::Identity(d) - SU_vector::Projector(d, (int)s.choose(d)); (void)c; first += c; }
+      SU_vector second = make();
+      CHECK(&second[0] != &first[0], std::string("C13|") + fn[f] + "|shares-storage-with-earlier-result", "d=%d", d);
+      for (int i = 0; i < d * d; i++) CHECK(bit_equal(second[i], ref[i]), std::string("C13|") + fn[f] + "|changed-by-modifying-earlier-result", "d=%d slot %d: %.17g, first request gave %.17g (how=%u)", d, i, second[i], ref[i], how);
       break;
     }
     default: {  // random linear combination of projectors
